@@ -697,8 +697,28 @@ class Engine:
         self._observed.append(vals)
 
     # ---- branching ---------------------------------------------------------------------------------
+    @staticmethod
+    def _signature(e):
+        """Order-independent structural signature of a (small) branch condition: z3's simplifier orders the
+        arguments of commutative operators by internal AST ids, which differ between re-executions."""
+        names, nums, ops = [], [], []
+        todo = [e]
+        seen = 0
+        while todo and seen < 400:
+            x = todo.pop()
+            seen += 1
+            if z3.is_const(x):
+                if x.decl().kind() == z3.Z3_OP_UNINTERPRETED:
+                    names.append(x.decl().name())
+                else:
+                    nums.append(str(x))
+            else:
+                ops.append(x.decl().kind())
+                todo.extend(x.children())
+        return hash((tuple(sorted(names)), tuple(sorted(nums)), tuple(sorted(ops))))
+
     def branch(self, e):
-        h = hash(e.sexpr())
+        h = self._signature(e)
         if self._pos < len(self._prefix):
             d, hh = self._prefix[self._pos]
             if hh != h:
